@@ -18,7 +18,10 @@ class PolynomialKernelGrad(PolynomialKernel):
     ) -> torch.Tensor:
         offset = self.offset.view(*self.batch_shape, 1, 1)
 
-        batch_shape = x1.shape[:-2]
+        # broadcast the inputs against each other and against the kernel's own batch shape
+        batch_shape = torch.broadcast_shapes(x1.shape[:-2], x2.shape[:-2], self.batch_shape)
+        x1 = x1.expand(*batch_shape, *x1.shape[-2:])
+        x2 = x2.expand(*batch_shape, *x2.shape[-2:])
         n1, d = x1.shape[-2:]
         n2 = x2.shape[-2]
 
